@@ -304,3 +304,31 @@ def check_reveals(ctx, rule, prefix):
                           "glazing).%s" % (_tilt_text(tilt), 90 * ka, ["(%s, %s, %s)" % tuple(str(c_) for c_ in p_) for p_ in pts], zs, extra), loc)
     if len(used) == 4:
         ctx.ok(rule, "%s|reveal|four-edges" % prefix, "lintel, sill and both jambs are present, one each", f.loc())
+
+
+def check_reveal_frame(ctx, rule, prefix):
+    """the window's position is given in the frame of its wall's polygon (origin at the first vertex, X along the first side): the sample points are carried
+    to world coordinates through to_polygon_coords_matrix and then to_global_coords_matrix.  The reveal surfaces of the same window must be placed through
+    the same two frames, or they are somewhere else than the window whenever the wall's polygon does not start at (0,0) along +X"""
+    from ..mir import callee_name
+    prog = ctx.prog
+
+    def frames_used(fn_):
+        out = set()
+        for f_ in [fn_] + prog.closures_of(fn_):
+            for _, t_ in f_.body.calls():
+                s_ = short_callee(callee_name(t_) or "")
+                if s_ in ("to_global_coords_matrix", "to_polygon_coords_matrix"):
+                    out.add(s_)
+        return out
+    rof_ = prog.method("types::model::Model", None, "ray_origins_for_window")
+    sfs_ = prog.find("bemodel::types::window::Window::shades_for_setback")
+    fa, fb = frames_used(rof_), frames_used(sfs_)
+    ctx.require("to_global_coords_matrix" in fa and "to_global_coords_matrix" in fb, "frame functions of the window position not found (%s / %s)" % (sorted(fa), sorted(fb)))
+    key = "%s|reveal-frame" % prefix
+    if fa == fb:
+        ctx.ok(rule, key, "sample points and reveal surfaces of a window go through the same frames (%s)" % sorted(fa), sfs_.loc())
+    else:
+        ctx.violation(rule, key, "the sample points of a window are placed through %s, its reveal surfaces through %s: on a wall whose polygon does "
+                      "not start at (0,0) with its first side along +X (roofs and floors that keep the outline of their space) the reveals are built away from the window "
+                      "and do not shade it" % (sorted(fa), sorted(fb)), sfs_.loc())
